@@ -11,9 +11,12 @@ CONSTANTS
 P(k, s) == [key |-> k, shape |-> s]
 
 UserKeys == {"a", "b", "exception.message"}
+\* keys that need escaping in the target formats: quote, backslash, newline, tab + non-ASCII
+EscKeys == {"q\"uote", "back\\slash", "new\nline", "k\té ✓"}
+EscShapes == {<<"I64">>, <<"Str">>, <<"StrCtl">>, <<"Seq", "F64">>, <<"MapKey", "I64", "Str">>, <<"None">>}
 UserAtoms == {"Null", "Bool", "I64", "U64Big", "I128", "U128", "F64", "NaN", "Inf", "Str", "StrCtl",
               "StrUni", "Bytes", "Struct", "EnumUnit", "EnumNewtype", "None", "Err", "ErrChain",
-              "Level"}
+              "Level", "Reent"}
 InnerQuick == {"I64", "U128", "F64", "NaN", "StrUni", "None", "Bytes", "Struct"}
 Inner == IF Tier = "thorough" THEN UserAtoms ELSE InnerQuick
 KeyInner == IF Tier = "thorough" THEN InnerQuick \cup {"Str"} ELSE {"I64", "Str"}
@@ -51,6 +54,7 @@ WkPairs == {
     P("metric_value", <<"I64">>), P("metric_agg", <<"AggLast">>) }
 
 Extras1 == WkPairs \cup {P(k, s) : k \in UserKeys, s \in UserShapes}
+           \cup (IF Tier = "small" THEN {} ELSE {P(k, s) : k \in EscKeys, s \in EscShapes})
 
 \* the properties combined into sequences of two and three
 Core == {
@@ -62,7 +66,8 @@ Core == {
     P("a", <<"I64">>), P("a", <<"Str">>), P("a", <<"I128">>), P("a", <<"Seq", "F64">>),
     P("a", <<"MapKey", "I64", "Str">>), P("a", <<"None">>),
     P("b", <<"Bool">>), P("b", <<"U64Big">>),
-    P("exception.message", <<"Str">>), P("exception.message", <<"I64">>) }
+    P("exception.message", <<"Str">>), P("exception.message", <<"I64">>),
+    P("a", <<"Reent">>), P("q\"u\\o\nte", <<"I64">>), P("q\"u\\o\nte", <<"StrUni">>) }
 CoreSmall == {P("lvl", <<"Level">>), P("err", <<"ErrChain">>), P("metric_unit", <<"Str">>),
               P("a", <<"I64">>), P("a", <<"Str">>), P("exception.message", <<"Str">>)}
 Comb == IF Tier = "small" THEN CoreSmall ELSE Core
